@@ -343,7 +343,11 @@ impl<S: Read> Master<S> {
             self.read_input(&mut reader, &mut index, process.as_mut())?;
         } else {
             for file in self.cli.files.clone() {
-                self.read_file(&file, &mut index, process.as_mut())?;
+                if let ProcessDesision::Break =
+                    self.read_file(&file, &mut index, process.as_mut())?
+                {
+                    break;
+                }
             }
         }
         process.complete()?;
@@ -352,25 +356,32 @@ impl<S: Read> Master<S> {
         Ok(())
     }
 
-    fn read_file(&self, file: &PathBuf, index: &mut u64, process: &mut dyn Process) -> Result<()> {
+    fn read_file(
+        &self,
+        file: &PathBuf,
+        index: &mut u64,
+        process: &mut dyn Process,
+    ) -> Result<ProcessDesision> {
         assert!(file.exists(), "File {file:?} not exists");
         if file.is_dir() {
             for entry in read_dir(file)? {
                 let path = entry?.path();
-                self.read_file(&path, index, process)?;
+                if let ProcessDesision::Break = self.read_file(&path, index, process)? {
+                    return Ok(ProcessDesision::Break);
+                }
             }
+            Ok(ProcessDesision::Continue)
         } else {
             let mut reader = from_file(file)?;
-            self.read_input(&mut reader, index, process)?;
+            self.read_input(&mut reader, index, process)
         }
-        Ok(())
     }
     fn read_input<R: Read>(
         &self,
         reader: &mut Reader<R>,
         index: &mut u64,
         process: &mut dyn Process,
-    ) -> Result<()> {
+    ) -> Result<ProcessDesision> {
         let mut in_file_index: u64 = 0;
         loop {
             let started = reader.where_is_next_token();
@@ -395,7 +406,7 @@ impl<S: Read> Master<S> {
                     );
                     match process.process(context)? {
                         ProcessDesision::Break => {
-                            break Ok(());
+                            break Ok(ProcessDesision::Break);
                         }
                         ProcessDesision::Continue => {
                             in_file_index += 1;
@@ -404,7 +415,7 @@ impl<S: Read> Master<S> {
                     }
                 }
                 Ok(None) => {
-                    return Ok(());
+                    return Ok(ProcessDesision::Continue);
                 }
                 Err(e) => {
                     if !e.can_recover() {
